@@ -68,7 +68,7 @@ pub open spec fn mr_read<T: AbstractDomain + SizedDomain + HasTop>(m: Map<i64, T
 pub open spec fn mr_with_top<T: AbstractDomain + SizedDomain + HasTop>(v: T) -> T { v.merge_spec(&v.top_spec()) }
 
 /// a value merged with the unknown value of its size (`elem.merge(&T::new_top(elem.bytesize()))`)
-pub open spec fn mr_with_new_top<T: AbstractDomain + SizedDomain + HasTop>(v: T) -> T {
+pub open spec fn mr_with_new_top<T: AbstractDomain + SizedDomain>(v: T) -> T {
     v.merge_spec(&T::new_top_spec(ByteSize(v.bytesize_spec() as u64)))
 }
 
@@ -102,6 +102,27 @@ pub open spec fn mr_free<T: AbstractDomain + SizedDomain + HasTop>(m: Map<i64, T
     forall |j: i64| #[trigger] m.contains_key(j) ==> !mr_cell_meets(m, j, p, s)
 }
 
+/// merge_or_merge_with_top: both present -> merged if the sizes agree and the result is not the unknown value;
+/// one present -> merged with the unknown value of its size, unless the result is the unknown value
+pub open spec fn mr_merge_pair<T: AbstractDomain + SizedDomain>(l: Option<&T>, r: Option<&T>) -> Option<T> {
+    match (l, r) {
+        (Some(a), Some(b)) => if a.bytesize_spec() == b.bytesize_spec() && !a.merge_spec(b).is_top_spec() { Some(a.merge_spec(b)) } else { None },
+        (Some(a), None) => if !mr_with_new_top(*a).is_top_spec() { Some(mr_with_new_top(*a)) } else { None },
+        (None, Some(b)) => if !mr_with_new_top(*b).is_top_spec() { Some(mr_with_new_top(*b)) } else { None },
+        (None, None) => None,
+    }
+}
+
+/// compute_range_end: offset plus the larger of the sizes present
+pub open spec fn mr_range_end<T: SizedDomain>(index: int, l: Option<&T>, r: Option<&T>) -> int {
+    match (l, r) {
+        (Some(a), Some(b)) => if a.bytesize_spec() <= b.bytesize_spec() { index + b.bytesize_spec() } else { index + a.bytesize_spec() },
+        (Some(a), None) => index + a.bytesize_spec(),
+        (None, Some(b)) => index + b.bytesize_spec(),
+        (None, None) => index,
+    }
+}
+
 /// THE MERGE RULE of the property: the offset k is kept by merge(a, b)
 pub open spec fn mr_merge_keeps<T: AbstractDomain + SizedDomain + HasTop>(a: Map<i64, T>, b: Map<i64, T>, k: i64) -> bool {
     if a.contains_key(k) && b.contains_key(k) {
@@ -126,6 +147,54 @@ pub open spec fn mr_merge_val<T: AbstractDomain + SizedDomain + HasTop>(a: Map<i
 
 pub open spec fn mr_merged<T: AbstractDomain + SizedDomain + HasTop>(a: Map<i64, T>, b: Map<i64, T>) -> Map<i64, T> {
     Map::new((a.dom() + b.dom()).filter(|k: i64| mr_merge_keeps(a, b, k)), |k: i64| mr_merge_val(a, b, k))
+}
+
+/// l lists, in ascending order of the offsets, the cells of m with lo <= offset < hi, each merged with the unknown value
+pub open spec fn mr_range_list<T: AbstractDomain + SizedDomain + HasTop>(l: Seq<(i64, T)>, m: Map<i64, T>, lo: int, hi: int) -> bool {
+    &&& forall |i: int| 0 <= i < l.len() ==> m.contains_key((#[trigger] l[i]).0) && lo <= l[i].0 < hi && l[i].1 == mr_with_top(m[l[i].0])
+    &&& forall |i: int, j: int| 0 <= i < j < l.len() ==> (#[trigger] l[i]).0 < (#[trigger] l[j]).0
+    &&& forall |k: i64| m.contains_key(k) && lo <= k < hi ==> exists |i: int| 0 <= i < l.len() && (#[trigger] l[i]).0 == k
+}
+
+/// the offset k has been visited by a loop over such a list that stands at position n
+pub open spec fn mr_visited<T>(l: Seq<(i64, T)>, n: int, k: i64, lo: int, hi: int) -> bool {
+    lo <= k < hi && (n < l.len() ==> k < l[n].0)
+}
+
+/// the ghost sequence of `BTreeMap::iter()` (vstd: all entries, keys increasing), read as a predicate
+pub open spec fn mr_keys_sorted<V>(s: Seq<(&i64, &V)>) -> bool {
+    forall |i: int, j: int| 0 <= i < j < s.len() ==> *(#[trigger] s[i]).0 < *(#[trigger] s[j]).0
+}
+
+pub open spec fn mr_iter_of<V>(s: Seq<(&i64, &V)>, m: Map<i64, V>) -> bool {
+    &&& forall |i: int| 0 <= i < s.len() ==> m.contains_key(*(#[trigger] s[i]).0) && m[*s[i].0] == *s[i].1
+    &&& mr_keys_sorted(s)
+    &&& forall |k: i64| m.contains_key(k) ==> exists |i: int| 0 <= i < s.len() && *(#[trigger] s[i]).0 == k
+}
+
+/// the offset k lies before position n of the (ascending) iteration s
+pub open spec fn mr_iter_visited<V>(s: Seq<(&i64, &V)>, n: int, k: i64) -> bool {
+    exists |j: int| 0 <= j < n && *(#[trigger] s[j]).0 == k
+}
+
+/// the entry of the `zipped` map of merge_inner at offset k
+pub open spec fn mr_zip_entry<'a, T>(a: Map<i64, T>, b: Map<i64, T>, k: i64) -> (Option<&'a T>, Option<&'a T>) {
+    (if a.contains_key(k) { Some(&a[k]) } else { None }, if b.contains_key(k) { Some(&b[k]) } else { None })
+}
+
+/// every cell of m at an offset before position n of the iteration s ends at or below e
+pub open spec fn mr_ends_below<T: AbstractDomain + SizedDomain + HasTop, V>(m: Map<i64, T>, s: Seq<(&i64, &V)>, n: int, e: int) -> bool {
+    forall |k: i64| #[trigger] m.contains_key(k) && mr_iter_visited(s, n, k) ==> k + m[k].bytesize_spec() <= e
+}
+
+/// some cell of m at an offset before position n of the iteration s ends exactly at e
+pub open spec fn mr_end_attained<T: AbstractDomain + SizedDomain + HasTop, V>(m: Map<i64, T>, s: Seq<(&i64, &V)>, n: int, e: int) -> bool {
+    exists |k: i64| #[trigger] m.contains_key(k) && mr_iter_visited(s, n, k) && k + m[k].bytesize_spec() == e
+}
+
+/// no cell of m at an offset above x starts below e
+pub open spec fn mr_no_later<T: AbstractDomain + SizedDomain + HasTop>(m: Map<i64, T>, x: i64, e: int) -> bool {
+    forall |k: i64| #[trigger] m.contains_key(k) && k > x ==> k >= e
 }
 
 impl<T: AbstractDomain + SizedDomain + HasTop> MemRegion<T> {
